@@ -204,9 +204,21 @@ pub fn log_kind(k: &str) -> &str {
     }
 }
 
+/// Log names known to server and device (taken before a sync).
+pub async fn known_logs(world: &NetWorld, di: usize) -> (BTreeSet<String>, BTreeSet<String>) {
+    let s = server_status(world).await.map(|s| status_map(&s).keys().cloned().collect()).unwrap_or_default();
+    let d = device_status(&world.devices[di].dev).await.map(|s| status_map(&s).keys().cloned().collect()).unwrap_or_default();
+    (s, d)
+}
+
 /// C04 (second sentence): a sync that reports success leaves the device
 /// equal to the server.
-pub async fn check_success_means_equal(world: &mut NetWorld, di: usize, rec: &mut Recorder) {
+pub async fn check_success_means_equal(
+    world: &mut NetWorld,
+    di: usize,
+    rec: &mut Recorder,
+    before: &(BTreeSet<String>, BTreeSet<String>),
+) {
     let ds = match device_status(&world.devices[di].dev).await {
         Ok(s) => status_map(&s),
         Err(_) => return,
@@ -217,12 +229,65 @@ pub async fn check_success_means_equal(world: &mut NetWorld, di: usize, rec: &mu
     };
     let skip = unsynced_folders(&world.devices[di].dev);
     let d = status_diff(&ds, &ss, &skip);
-    if !d.is_empty() {
-        let kinds: BTreeSet<String> =
-            d.iter().map(|x| x.split(':').next().unwrap_or("").to_string()).collect();
+    if d.is_empty() {
+        return;
+    }
+    // root-cause classes that can be told apart mechanically
+    let differing: Vec<String> = {
+        let keys: BTreeSet<&String> = ds.keys().chain(ss.keys()).collect();
+        keys.into_iter()
+            .filter(|k| !skip.contains(*k) && ds.get(*k) != ss.get(*k))
+            .cloned()
+            .collect()
+    };
+    let dl = device_logs(&world.devices[di].dev).await.unwrap_or_default();
+    let sl = server_logs(world).await.unwrap_or_default();
+    let mut classes: BTreeSet<String> = BTreeSet::new();
+    for k in &differing {
+        let new_folder = k.starts_with("folder:") && (!before.0.contains(k) || !before.1.contains(k));
+        let has_dups = |l: &LogSet| {
+            l.get(k)
+                .map(|v| {
+                    let mut seen = BTreeSet::new();
+                    v.iter().any(|r| !seen.insert(r.commit))
+                })
+                .unwrap_or(false)
+        };
+        if new_folder {
+            classes.insert("folder_unknown_to_one_side_before_this_sync".into());
+        } else if has_dups(&dl) || has_dups(&sl) {
+            classes.insert(format!("{}_log_holds_identical_events", log_kind(k)));
+        } else {
+            classes.insert(log_kind(k).to_string());
+        }
+    }
+    let mut rw = String::new();
+    {
+        // did this sync go through the auto-merge path (scan / patch requests)?
+        let l = world.net.0.log.lock().unwrap();
+        let mut merged = false;
+        for d in l.iter().rev() {
+            if d.device != di || d.kind == "exists" {
+                if d.device == di {
+                    break;
+                }
+                continue;
+            }
+            if d.kind == "scan" || d.kind == "patch" {
+                merged = true;
+            }
+        }
+        if merged {
+            rw.push_str("/sync_auto_merged");
+        }
+    }
+    if world.devices.iter().any(|d| d.own.rewritten) {
+        rw.push_str("/after_history_rewrite");
+    }
+    for c in classes {
         rec.violate(
             "C04",
-            &format!("C04/success_but_differs/{}", kinds.into_iter().collect::<Vec<_>>().join("+")),
+            &format!("C04/success_but_differs/{c}{rw}"),
             format!("sync on d{di} returned success (no conflict) yet device vs server: {}", d.join("; ")),
         );
     }
@@ -914,9 +979,10 @@ pub async fn quiesce_and_check(world: &mut NetWorld, s: &Value, rec: &mut Record
             order.swap(i, j);
         }
         for &i in &order {
+            let before = known_logs(world, i).await;
             let c = world.sync(i, rec).await;
             if c == "ok" {
-                check_success_means_equal(world, i, rec).await;
+                check_success_means_equal(world, i, rec, &before).await;
             }
             classes.push(format!("d{i}:{c}"));
         }
@@ -943,6 +1009,48 @@ pub async fn quiesce_and_check(world: &mut NetWorld, s: &Value, rec: &mut Record
             }
             let status_kinds: Vec<String> =
                 by_kind.keys().filter(|k| k.as_str() != "content").cloned().collect();
+            // logs (by kind) in which some replica holds byte-identical events:
+            // events are addressed by the hash of their bytes, so these are a
+            // distinct root-cause class
+            let mut dup_kinds: BTreeSet<String> = BTreeSet::new();
+            let mut reordered_kinds: BTreeSet<String> = BTreeSet::new();
+            {
+                let mut all: Vec<LogSet> = vec![];
+                if let Ok(l) = server_logs(world).await {
+                    all.push(l);
+                }
+                for d in &world.devices {
+                    if let Ok(l) = device_logs(&d.dev).await {
+                        all.push(l);
+                    }
+                }
+                for ls in &all {
+                    for (k, v) in ls {
+                        let mut seen = BTreeSet::new();
+                        if v.iter().any(|r| !seen.insert(r.commit)) {
+                            dup_kinds.insert(log_kind(k).to_string());
+                        }
+                    }
+                }
+                // same multiset of events on two replicas, different order
+                if let Some(first) = all.first() {
+                    for (k, v) in first {
+                        for other in all.iter().skip(1) {
+                            if let Some(o) = other.get(k) {
+                                if o != v {
+                                    let mut a: Vec<_> = v.iter().map(|r| r.commit).collect();
+                                    let mut b: Vec<_> = o.iter().map(|r| r.commit).collect();
+                                    a.sort();
+                                    b.sort();
+                                    if a == b {
+                                        reordered_kinds.insert(log_kind(k).to_string());
+                                    }
+                                }
+                            }
+                        }
+                    }
+                }
+            }
             for (kind, items) in &by_kind {
                 if kind == "content" && !status_kinds.is_empty() {
                     continue; // explained by the log that did not converge
@@ -951,19 +1059,60 @@ pub async fn quiesce_and_check(world: &mut NetWorld, s: &Value, rec: &mut Record
                     .iter()
                     .filter_map(|w| w.strip_prefix('d').and_then(|x| x[..1].parse().ok()))
                     .collect();
-                let failing: Vec<String> = devs
-                    .iter()
-                    .filter(|i| **i < n && !world.devices[**i].last_sync_ok)
-                    .map(|i| world.devices[*i].last_err.clone())
+                let _ = devs;
+                // any device whose syncs keep failing explains the kinds that
+                // cannot converge through it
+                let failing: Vec<String> = (0..n)
+                    .filter(|i| !world.devices[*i].last_sync_ok)
+                    .map(|i| world.devices[i].last_err.clone())
                     .collect();
-                let class = match failing.first() {
+                let mut class = match failing.first() {
                     Some(e) => format!("sync_fails:{e}"),
                     None => "despite_successful_syncs".to_string(),
                 };
+                if dup_kinds.contains(kind) {
+                    class.push_str("/log_holds_identical_events");
+                } else if reordered_kinds.contains(kind) {
+                    class.push_str("/same_events_different_order");
+                }
+                if world.devices.iter().any(|d| d.own.rewritten) {
+                    class.push_str("/after_history_rewrite");
+                }
+                // the actual sequences of the logs of this kind, per replica
+                let mut seqs = String::new();
+                {
+                    let mut all: Vec<(String, LogSet)> = vec![];
+                    if let Ok(l) = server_logs(world).await {
+                        all.push(("server".into(), l));
+                    }
+                    for d in &world.devices {
+                        if let Ok(l) = device_logs(&d.dev).await {
+                            all.push((d.dev.name.clone(), l));
+                        }
+                    }
+                    let keys: BTreeSet<String> = all
+                        .iter()
+                        .flat_map(|(_, l)| l.keys().cloned())
+                        .filter(|k| log_kind(k) == kind)
+                        .collect();
+                    for k in keys {
+                        let vs: Vec<Option<&Vec<RecT>>> = all.iter().map(|(_, l)| l.get(&k)).collect();
+                        if vs.windows(2).all(|w| w[0] == w[1]) {
+                            continue;
+                        }
+                        for (name, l) in &all {
+                            let txt = l
+                                .get(&k)
+                                .map(|v| v.iter().map(|r| format!("{}@{}", &hex::encode(r.commit)[..4], &r.time[14..r.time.len().min(27)])).collect::<Vec<_>>().join(" "))
+                                .unwrap_or("absent".into());
+                            seqs.push_str(&format!("\n      {name} {}: {txt}", &k[..k.len().min(14)]));
+                        }
+                    }
+                }
                 rec.violate(
                     "C04",
                     &format!("C04/not_converged/{kind}/{class}"),
-                    format!("after {rounds} rounds in which every device synced once: {}; sync results: {}", items.join("; "), classes.join(" ")),
+                    format!("after {rounds} rounds in which every device synced once: {}; sync results: {}{seqs}", items.join("; "), classes.join(" ")),
                 );
             }
         }
